@@ -22,6 +22,7 @@ import (
 	"github.com/cloudflare/circl/group"
 	"github.com/cloudflare/circl/internal/verifmc"
 	"github.com/cloudflare/circl/internal/verifref/shamir"
+	"github.com/cloudflare/circl/math/polynomial"
 	"github.com/cloudflare/circl/secretsharing"
 )
 
@@ -515,6 +516,190 @@ func TestVerifC17_shamir_ids(t *testing.T) {
 	r.RequireCounter("unqualified_refused", 200)
 	r.RequireCounter("shares_intact_after_caller_reuses_its_scalars", 500)
 	r.RequireCounter("dealt_through_reused_object_verified", 500)
+}
+
+// TestVerifC17_shamir_duplicates: sequences of shares WITH repetitions. A sequence holding only t or fewer distinct
+// shares is unqualified whatever its length: Recover must refuse it (documented: panic on duplicated identifiers; an
+// error is as good) and never hand out a value. With t+1 or more distinct shares plus repetitions it may refuse or
+// return exactly the secret, never another value.
+func TestVerifC17_shamir_duplicates(t *testing.T) {
+	c17DefaultConfigOnly(t)
+	r := verifmc.Start(t, "C17", "shamir_duplicates")
+	defer r.Finish()
+	ov := verifmc.NewOrderedViolations(r)
+	defer ov.Flush()
+	maxN := r.Pick(4, 5)
+	r.Rule("groups x all (t,n), 0<=t<n<=maxN x secrets x EVERY sequence of length t+1 and t+2 over the n dealt shares in which some share occurs twice (repetition in the first, a middle, the last used position, or beyond the first t+1), " +
+		"plus every forged pair (identifier of share q, value of share p) put in place of share p among t+1 distinct shares: <= t distinct shares => Recover panics or returns an error; >= t+1 distinct => refusal or exactly the secret; " +
+		"and polynomial.NewLagrangePolynomial with 2..5 nodes and a repeated node at every pair of positions must panic as documented; non-trivial = distinct (group,t,n,secret,index sequence)")
+	r.Set("max_n", maxN)
+	jobs := c17Jobs(r, maxN)
+	verifmc.ParallelFor(len(jobs), func(ji int) {
+		j := jobs[ji]
+		G := j.G
+		tag := j.tag() + "/with-repetitions"
+		if !c17WantPrefix(r, tag) || r.Expired() {
+			return
+		}
+		var d c17Dealt
+		if p, what := verifmc.Try(func() {
+			d.ss = secretsharing.New(verifmc.NewDetReader("c17-coeff/"+j.tag()), uint(j.t), G.scalar(j.sec.v))
+			for _, sh := range d.ss.Share(uint(j.n)) {
+				d.add(G, sh)
+			}
+		}); p {
+			ov.Add(j.rank(), "C17|secretsharing.Share|panic:"+verifmc.PanicClass(what), tag, tag+": New/Share panicked: "+what, nil)
+			return
+		}
+		want := G.scalar(j.sec.v)
+		run := func(caseID, posClass string, rank []int, sub []secretsharing.Share, distinctIDs int) {
+			if !r.Want(caseID) {
+				return
+			}
+			var got group.Scalar
+			var err error
+			r.Eval(1)
+			r.Distinct(caseID)
+			panicked, _ := verifmc.Try(func() { got, err = secretsharing.Recover(uint(j.t), sub) })
+			refused := panicked || err != nil
+			rp := map[string]interface{}{"group": G.name, "t": j.t, "n": j.n, "secret": j.sec.v.Text(16), "sequence": caseID[strings.LastIndex(caseID, "|")+1:]}
+			if distinctIDs <= j.t {
+				r.Count("unqualified_sequences_with_repetition", 1)
+				if posClass == "repeats-in-last-used-position" {
+					r.Count("unqualified_repetition_in_last_used_position", 1)
+				}
+				if refused {
+					r.Outcome(map[bool]string{true: "unqualified:panic(documented)", false: "unqualified:error"}[panicked])
+					r.Count("unqualified_refused", 1)
+					return
+				}
+				r.Outcome("unqualified:value-returned")
+				ov.Add(rank, "C17|secretsharing.Recover|unqualified-sequence-with-repeated-share-accepted|"+posClass, caseID,
+					fmt.Sprintf("%s: only %d distinct shares (t=%d) padded with a repeated identifier; Recover returned %v with a nil error instead of refusing", caseID, distinctIDs, j.t, got), rp)
+				return
+			}
+			r.Count("qualified_sequences_with_repetition", 1)
+			switch {
+			case refused:
+				r.Outcome("qualified+repetition:refused")
+			case got != nil && got.IsEqual(want) && G.big(got).Cmp(j.sec.v) == 0:
+				r.Outcome("qualified+repetition:secret")
+				r.Count("qualified_with_repetition_recovered", 1)
+			default:
+				r.Outcome("qualified+repetition:wrong-value")
+				ov.Add(rank, "C17|secretsharing.Recover|qualified-sequence-with-repetition-wrong-secret|"+posClass, caseID,
+					fmt.Sprintf("%s: %d distinct shares (t=%d) plus a repetition: Recover returned %v, neither the secret nor a refusal", caseID, distinctIDs, j.t, got), rp)
+			}
+		}
+		for _, L := range []int{j.t + 1, j.t + 2} {
+			sizes := make([]int, L)
+			for i := range sizes {
+				sizes[i] = j.n
+			}
+			verifmc.Product(sizes, func(idx []int) bool {
+				seen := map[int]bool{}
+				for _, x := range idx {
+					seen[x] = true
+				}
+				if len(seen) == L {
+					return true // no repetition: the shamir unit
+				}
+				used := idx[:j.t+1]
+				posClass := "repeats-beyond-the-first-t+1"
+				lastRep, earlyRep := false, false
+				for a := 0; a < len(used); a++ {
+					for b := a + 1; b < len(used); b++ {
+						if used[a] == used[b] {
+							if b == len(used)-1 {
+								lastRep = true
+							} else {
+								earlyRep = true
+							}
+						}
+					}
+				}
+				switch {
+				case lastRep && !earlyRep:
+					posClass = "repeats-in-last-used-position"
+				case earlyRep:
+					posClass = "repeats-within-the-first-t-positions"
+				}
+				sub := make([]secretsharing.Share, L)
+				parts := make([]string, L)
+				rank := append(j.rank(), L)
+				for i, x := range idx {
+					sub[i] = d.shares[x]
+					parts[i] = fmt.Sprint(x + 1)
+					rank = append(rank, x)
+				}
+				run(fmt.Sprintf("%s|S=%s", tag, strings.Join(parts, ",")), posClass, rank, sub, len(seen))
+				return true
+			})
+		}
+		// same identifier, different value
+		for p := 0; p <= j.t; p++ {
+			for q := 0; q <= j.t; q++ {
+				if p == q {
+					continue
+				}
+				sub := make([]secretsharing.Share, j.t+1)
+				copy(sub, d.shares[:j.t+1])
+				sub[p] = secretsharing.Share{ID: d.shares[q].ID.Copy(), Value: d.shares[p].Value.Copy()}
+				hi := p
+				if q > hi {
+					hi = q
+				}
+				posClass := "repeats-within-the-first-t-positions"
+				if hi == j.t {
+					posClass = "repeats-in-last-used-position"
+				}
+				run(fmt.Sprintf("%s|forged=position%d-carries-id-of-share%d", tag, p, q+1), posClass+"|same-id-different-value", append(j.rank(), 99, p, q), sub, j.t)
+			}
+		}
+	})
+	// the interpolation constructor itself
+	for gi, G := range c17Groups() {
+		for m := 2; m <= 5; m++ {
+			for a := 0; a < m; a++ {
+				for b := a + 1; b < m; b++ {
+					caseID := fmt.Sprintf("%s/lagrange-nodes=%d/node%d=node%d", G.name, m, b, a)
+					if !r.Want(caseID) {
+						continue
+					}
+					x := make([]group.Scalar, m)
+					y := make([]group.Scalar, m)
+					for i := range x {
+						x[i] = G.scalar(big.NewInt(int64(10 + i)))
+						y[i] = G.scalar(big.NewInt(int64(100 + 7*i)))
+					}
+					x[b] = x[a].Copy()
+					r.Eval(1)
+					r.Distinct(caseID)
+					var val group.Scalar
+					panicked, _ := verifmc.Try(func() {
+						l := polynomial.NewLagrangePolynomial(x, y)
+						val = l.Evaluate(G.g.NewScalar())
+					})
+					if panicked {
+						r.Outcome("lagrange-repeated-node:panic(documented)")
+						r.Count("lagrange_repeated_node_refused", 1)
+						continue
+					}
+					r.Outcome("lagrange-repeated-node:accepted")
+					cls := "earlier-positions"
+					if b == m-1 {
+						cls = "last-position"
+					}
+					ov.Add([]int{0, m, gi, a, b}, "C17|polynomial.NewLagrangePolynomial|repeated-node-accepted|"+cls, caseID,
+						fmt.Sprintf("%s: nodes %d and %d are equal, the constructor did not panic (documented) and Evaluate(0) returned %v", caseID, a, b, val), nil)
+				}
+			}
+		}
+	}
+	r.RequireCounter("unqualified_refused", 1000)
+	r.RequireCounter("unqualified_repetition_in_last_used_position", 300)
+	r.RequireCounter("qualified_with_repetition_recovered", 300)
+	r.RequireCounter("lagrange_repeated_node_refused", 80)
 }
 
 // TestVerifC17_feldman: Verify against CommitSecret for dealt and altered shares / commitments.
